@@ -450,6 +450,7 @@ def drv_build(case):
         tok = proj.Tok()
         table = []
         shared_ = {}
+        if not proj.is_var(m) and len(json.dumps(r)) % 3 == 0: _provoke(m, len(ids))
         for k, vals in enumerate(itertools.product((0, 1), repeat=len(ids))):
             asg = dict(zip(ids, vals))
             interp_ = {i: _form(v, k, puan) for i, v in asg.items()}
@@ -1361,6 +1362,8 @@ def drv_history(case):
     import puan
     tok = proj.Tok()
     store = {h: B.build(r) for h, r in case["handles"].items()}
+    if len(json.dumps(case["calls"])) % 4 == 0:
+        for h_, o_ in store.items(): _provoke(o_, len(h_))        # rejected calls (ValueError) before the history: they leave nothing behind
     steps = []
     ghosts = 0
     initial = {h: proj.node(v, tok) for h, v in store.items()}
@@ -1507,8 +1510,12 @@ def drv_x_arrays(case):
     else:
         a = pnd.integer_ndarray(numpy.array(x, dtype=numpy.int64))
         g = lambda r: _nest(numpy.asarray(r).astype(numpy.int64).tolist())
-        out.append({"op": "x_reduce2d", "x": x, "first0": g(a.reduce2d("first", 0)), "first1": g(a.reduce2d("first", 1)),
-                    "last0": g(a.reduce2d("last", 0)), "last1": g(a.reduce2d("last", 1)), "ranking": g(a.ranking())})
+        ev = {"op": "x_reduce2d", "x": x, "first0": g(a.reduce2d("first", 0)), "first1": g(a.reduce2d("first", 1)),
+              "last0": g(a.reduce2d("last", 0)), "last1": g(a.reduce2d("last", 1)), "ranking": g(a.ranking())}
+        ev["x_after"] = g(a)                                  # the helpers hand out new arrays, the caller's array stays
+        a1 = pnd.integer_ndarray(numpy.array(x[0], dtype=numpy.int64))
+        ev["rank1"] = g(a1.ranking()); ev["x1_after"] = g(a1)
+        out.append(ev)
     return out
 
 def drv_x_misc(case):
